@@ -11,7 +11,8 @@ import ZV.Model.Der0
     buffer, `offset`, `pendingLenLen`, `pendingIsASN1`, length back-patching and the DER long-form
     widening by `copy`, as in builder.go.
   * `ser` — the specification-level serializer (length prefix computed up front, ASN.1 elements via
-    `ZV.Der0.CB.element`).  The driver prints `SPEC-MISMATCH` if `buildBytes` and `ser` ever differ.
+    `ZV.Der0.CB.element`).  `buildBytes p = ser p` is proved for all programs (`builder_refines_ser`,
+    ZV/Props/C21.lean); the driver still prints `SPEC-MISMATCH` if the two ever differ at run time.
   * `readProg` and the optional readers (`readOptionalASN1`, `readOptionalInt`, `readOptionalOctets`,
     `readOptionalBool` = the version after the fix for D1).
   ASN.1 leaf values reuse the content functions and readers of `ZV.Model.Der0` (namespace `CB`).
@@ -28,7 +29,7 @@ inductive Prog where
   | done
   | uN (w : Nat) (v : Nat) (k : Prog)            -- AddUint8/16/24/32 (w = 1..4)
   | raw (b : Bytes) (k : Prog)                   -- AddBytes ↔ ReadBytes(len b)
-  | lp (n : Nat) (body k : Prog)                 -- AddUint8/16/24LengthPrefixed (n = 1..3)
+  | lp (n : Nat) (body k : Prog)                 -- AddUint8/16/24/32LengthPrefixed (n = 1..4)
   | asn1 (tag : UInt8) (body k : Prog)           -- AddASN1 ↔ ReadASN1
   | int64 (tag : UInt8) (v : Int) (k : Prog)     -- AddASN1Int64 (tag 2) / …WithTag / AddASN1Enum (tag 10)
   | uint64 (v : Nat) (k : Prog)
